@@ -233,6 +233,7 @@ func runC17Seq(t *testing.T, seq []string, early chan CaseOut) {
 		time.Sleep(30 * time.Second)
 		synctest.Wait()
 		baseG := runtime.NumGoroutine()
+		baseSites := goroutineSites()
 		baseA, baseB := registryNames(m.nodes["a"]), registryNames(m.nodes["b"])
 		for _, op := range seq {
 			st.op(op)
@@ -272,10 +273,20 @@ func runC17Seq(t *testing.T, seq []string, early chan CaseOut) {
 			out.violate("close:service-name-leaked:"+leakKind(seq), "%s: node b's listener registry is %v, was %v before the sequence", ctx, afterB, baseB)
 		}
 		g := runtime.NumGoroutine()
-		if g > baseG {
-			buf := make([]byte, 1<<20)
-			n := runtime.Stack(buf, true)
-			out.violate("close:goroutines-leaked:"+leakKind(seq), "%s: %d goroutines, %d before the sequence; leaked (by creation site): %s", ctx, g, baseG, summarizeGoroutines(string(buf[:n])))
+		// compare by creation site inside receptor / quic-go (harness and runtime goroutines do not count)
+		afterSites := goroutineSites()
+		var leaked []string
+		for site, n := range afterSites {
+			if n > baseSites[site] {
+				leaked = append(leaked, fmt.Sprintf("%s +%d", site, n-baseSites[site]))
+			}
+		}
+		sort.Strings(leaked)
+		if len(leaked) > 0 && !shutA && !shutB {
+			out.violate("close:goroutines-leaked:"+leakKind(seq), "%s: goroutines left behind (by creation site): %s", ctx, strings.Join(leaked, "; "))
+		}
+		if (shutA || shutB) && len(leaked) > 0 {
+			out.violate("close:goroutines-leaked-after-shutdown:"+leakKind(seq), "%s: goroutines left behind after a node shutdown: %s", ctx, strings.Join(leaked, "; "))
 		}
 		out.Outcome = fmt.Sprintf("len=%d", len(seq))
 		out.Sample = map[string]any{"sequence": seq, "log": st.log, "goroutines_before": baseG, "goroutines_after": g}
@@ -307,33 +318,26 @@ func leakKind(seq []string) string {
 	return k
 }
 
-func summarizeGoroutines(dump string) string {
+// goroutineSites counts live goroutines by the receptor / quic-go function that created them.
+func goroutineSites() map[string]int {
+	buf := make([]byte, 4<<20)
+	n := runtime.Stack(buf, true)
 	counts := map[string]int{}
-	for _, blk := range strings.Split(dump, "\n\n") {
-		lines := strings.Split(blk, "\n")
+	for _, blk := range strings.Split(string(buf[:n]), "\n\n") {
 		site := ""
-		for i, l := range lines {
+		for _, l := range strings.Split(blk, "\n") {
 			if strings.HasPrefix(l, "created by ") {
 				site = strings.TrimPrefix(l, "created by ")
 				if j := strings.Index(site, " in goroutine"); j > 0 {
 					site = site[:j]
 				}
-				_ = i
 			}
 		}
-		if site != "" && (strings.Contains(site, "receptor") || strings.Contains(site, "quic")) {
+		if site != "" && (strings.Contains(site, "ansible/receptor") || strings.Contains(site, "quic-go")) {
 			counts[site]++
 		}
 	}
-	var ks []string
-	for k, v := range counts {
-		ks = append(ks, fmt.Sprintf("%s x%d", k, v))
-	}
-	sort.Strings(ks)
-	if len(ks) > 12 {
-		ks = ks[:12]
-	}
-	return strings.Join(ks, "; ")
+	return counts
 }
 
 func execC17(w *W, args json.RawMessage) CaseOut {
